@@ -24,7 +24,7 @@ class IpModel:
         self.v6 = p.find_class("IpV6Anonymizer")
         for c in (self.v4, self.v6):
             if self.base not in c.mro():
-                raise AnalysisError("%s no longer derives from %s" % (c.name, self.base.name))
+                raise ShapeError("%s no longer derives from %s" % (c.name, self.base.name), "%s:%d" % (c.module.relpath, c.node.lineno), "hierarchy:%s" % c.name)
         self.f_init = self.method(self.base, "__init__")
         self.f_anon = self.method(self.base, "anonymize")
         self.f_fwd = self.method(self.base, "_anonymize_bits")
@@ -39,7 +39,7 @@ class IpModel:
 
     def method(self, cls, name):
         if name not in cls.methods:
-            raise AnalysisError("anchor method %s.%s not found" % (cls.name, name))
+            raise ShapeError("anchor method %s.%s not found; the clauses anchored in it cannot be discharged" % (cls.name, name), "%s:%d" % (cls.module.relpath, cls.node.lineno), "anchor:%s.%s" % (cls.name, name))
         return cls.methods[name]
 
     # ------------------------------------------------------------------
